@@ -56,6 +56,8 @@ fn base_states() -> Vec<Vec<&'static str>> {
         vec!["AddHttpListener(a4,rich)", "ActivateListener(http)", "AddCluster(c1,rich)", "AddHttpFrontend(f1)", "AddBackend(c1,b1@1)", "AddBackend(c1,b2@1)"],
         vec!["AddHttpsListener(a6,default)", "ActivateListener(https)", "AddCluster(c1)", "AddCertificate(a6,cert1)", "AddHttpsFrontend(g1)", "AddBackend(c1,b1@1)", "AddBackend(c1,b1@2)"],
         vec!["AddTcpListener(a4,default)", "ActivateListener(tcp)", "AddCluster(c1)", "AddTcpFrontend(c1,a4)", "AddBackend(c1,b1@1)"],
+        // a plain HTTP/1.1 cluster with a backend at each address: what the backend commands do to traffic
+        vec!["AddHttpListener(a4,default)", "ActivateListener(http)", "AddCluster(c1)", "AddHttpFrontend(f1)", "AddBackend(c1,b1@1)", "AddBackend(c1,b1@2)"],
     ]
 }
 
@@ -121,6 +123,20 @@ pub fn run_case(case: &Case, prefix: Vec<u32>) -> Run {
     ));
     probes.push(Peer::server("backend-b1", b1, vec![Step::ServeH1 { response_head: "HTTP/1.1 200 OK".into(), body: b"b1".to_vec() }]));
     probes.push(Peer::server("backend-b2", b2, vec![Step::ServeH1 { response_head: "HTTP/1.1 200 OK".into(), body: b"b2".to_vec() }]));
+    // three more requests, one after the other: which backends get traffic (peers 5..8)
+    for k in 0..3u64 {
+        probes.push(Peer::client(
+            &format!("probe-http-{}", k + 2),
+            vec![
+                Step::Wait { ms: 2 + 2 * k },
+                Step::Connect { to: a4, from: None },
+                Step::Send { bytes: b"GET / HTTP/1.1\r\nHost: a.io\r\nConnection: close\r\n\r\n".to_vec(), splits: vec![] },
+                Step::ExpectH1 { count: 1, responses: true },
+                Step::Close,
+                Step::Done,
+            ],
+        ));
+    }
     // probes run from the start of the scenario... they must run after the
     // sequence: give them a leading wait that the main script outlasts
     let probes: Vec<Peer> = probes
@@ -277,6 +293,37 @@ pub fn run_case(case: &Case, prefix: Vec<u32>) -> Run {
             None => flag("request-path:no-answer".into(), format!("GET a.io/ on the active HTTP listener got no answer ({} bytes); view: {}", probe.conn.rx.len(), expect.0)),
             Some(st) if !expect.1.contains(&st) => flag(format!("request-path:answers-{st}-view-says-{}", expect.1[0]), format!("GET a.io/ was answered {st} but by the worker's own view {} (expected one of {:?})", expect.0, expect.1)),
             Some(200) => {
+                // ---- (3c) traffic goes to the backends the view makes eligible: the cluster's
+                // primaries, its backups only when it has no primary
+                if expect.1 == vec![200] {
+                    let cid = front.and_then(|f| f.cluster_id.clone()).unwrap_or_default();
+                    let list = worker_ref.backends.get(&cid).cloned().unwrap_or_default();
+                    let where_is = |a: std::net::SocketAddr| if a == b1 { "b1" } else { "b2" };
+                    let primaries: BTreeSet<&str> = list.iter().filter(|b| b.backup != Some(true)).map(|b| where_is(b.address)).collect();
+                    let backups: BTreeSet<&str> = list.iter().filter(|b| b.backup == Some(true)).map(|b| where_is(b.address)).collect();
+                    let eligible = if primaries.is_empty() { backups.clone() } else { primaries.clone() };
+                    let mut served: Vec<String> = vec![];
+                    for i in [2usize, 5, 6, 7] {
+                        let (r, _, _) = crate::sim::h1::parse_all(&sc.peers[i].conn.rx, true, true);
+                        if let Some(m) = r.first() {
+                            if m.status() == Some(200) {
+                                served.push(String::from_utf8_lossy(&m.body).into_owned());
+                            }
+                        }
+                    }
+                    if let Some(bad) = served.iter().find(|s| !eligible.contains(s.as_str())) {
+                        flag(
+                            format!("request-path:traffic-to-{}", if backups.contains(bad.as_str()) { "backup-while-a-primary-is-configured" } else { "a-backend-the-view-does-not-list" }),
+                            format!("requests were served by {served:?}; by the worker's own view the cluster's primaries are at {primaries:?}, its backups at {backups:?}"),
+                        );
+                    }
+                    let round_robin = worker_ref.clusters.get(&cid).is_some_and(|c| c.load_balancing == 0 && !c.sticky_session);
+                    if round_robin && list.len() <= 3 && served.len() == 4 {
+                        if let Some(idle) = eligible.iter().find(|e| !served.iter().any(|s| s == *e)) {
+                            flag("request-path:eligible-backend-gets-no-traffic".into(), format!("four round-robin requests were served by {served:?}; the view lists an eligible backend at {idle} (primaries {primaries:?}, backups {backups:?})"));
+                        }
+                    }
+                }
                 let sticky = front.and_then(|f| f.cluster_id.as_ref()).and_then(|c| worker_ref.clusters.get(c)).is_some_and(|c| c.sticky_session);
                 let has_cookie = resps[0].headers_named("set-cookie").iter().any(|v| v.starts_with("SOZUBALANCEID="));
                 if sticky != has_cookie {
@@ -334,10 +381,17 @@ fn cases(tier: Tier) -> Vec<Case> {
         }
     }
     // pairs: from the empty and the populated http base (quick); all bases (thorough)
-    let pair_bases: Vec<usize> = if tier == Tier::Quick { vec![1] } else { (0..bases).collect() };
+    let pair_bases: Vec<usize> = if tier == Tier::Quick { vec![1, 4] } else { (0..bases).collect() };
     for base in pair_bases {
         for a in &alpha {
+            // quick, plain-cluster base: pairs of backend / cluster commands only
+            if tier == Tier::Quick && base == 4 && !(a.name.contains("Backend") || a.name.contains("Cluster(c1")) {
+                continue;
+            }
             for b in &alpha {
+                if tier == Tier::Quick && base == 4 && !(b.name.contains("Backend") || b.name.contains("Cluster(c1")) {
+                    continue;
+                }
                 // quick: the second command is restricted to verbs touching listeners, clusters, frontends or backends
                 if tier == Tier::Quick && !(b.name.contains("Listener") || b.name.contains("Backend") || b.name.contains("Frontend(f1") || b.name.starts_with("RemoveCluster")) {
                     continue;
